@@ -95,6 +95,15 @@ def time_coords(nlp, base, names=("tc", "T", "t0")):
     return idx
 
 
+def der_scales_of(d):
+    """declared derivative scale per flattened state component"""
+    out = []
+    for name, (r, c) in P.state_shapes(d):
+        v = d.get("scales", {}).get("der_" + name, 1)
+        out += list(np.array(v, dtype=float).reshape(-1)) if isinstance(v, (list, tuple)) else [float(v)] * (r * c)
+    return out
+
+
 def compare_case(d, want=("rows", "obj"), full_alphabet=True, return_rows=False):
     """Run one case.  Returns CaseResult.  Exceptions raised inside rockit are observations."""
     import casadi as ca
@@ -156,6 +165,9 @@ def compare_case(d, want=("rows", "obj"), full_alphabet=True, return_rows=False)
     for a in ref_rows:
         a["fp"] = np.array(a["fp"])
     missing, extra = NL.match_rows(rows_real, ref_rows, prop_origins=(("dyn",) if d.get("scales") else ()))
+    if d.get("scales") and d["method"] == "DC":
+        for o, msg in NL.der_scale_mismatches(rows_real, ref_rows, der_scales_of(d))[:2]:
+            res.add("scale:der", "value", "%s: %s" % (o, msg))
     # classify extra rows: time-only rows belong to the grid/free-time properties
     tcoords = time_coords(nlp, pts[0])
     res.time_coords = tcoords
